@@ -419,8 +419,27 @@ class Precision(SubCheck):
         return out
 
 
+def stale_check(svg, tier):
+    from props import stale
+    measures = {
+        "d()": lambda o: o.d(),
+        "d(relative=True)": lambda o: o.d(relative=True),
+        "d(smooth=True)": lambda o: o.d(smooth=True),
+        "d(transformed=False)": lambda o: o.d(transformed=False),
+        "str": lambda o: str(o) if hasattr(o, "d") else (_ for _ in ()).throw(AttributeError("d")),
+    }
+    extra = {
+        "subpath*=": lambda o: o.subpath(0).__imul__(svg.Matrix(2, 0, 0, 3, 1, -1)) if isinstance(o, svg.Path) else stale.c18._na(),
+        "transform.post_scale": lambda o: o.transform.post_scale(2, 3),
+        "transform=": lambda o: setattr(o, "transform", svg.Matrix(0, 1, -1, 0, 3, 4)) if hasattr(o, "transform") else stale.c18._na(),
+        "seg.end=": lambda o: setattr(stale.c18.first_seg(o), "end", svg.Point(77, -5)),
+        "subpath.reverse": lambda o: o.subpath(0).reverse() if isinstance(o, svg.Path) else stale.c18._na(),
+    }
+    return stale.Stale(svg, measures, extra_mutations=extra, depth=2 if tier == "thorough" else 1)
+
+
 def build(tier, seed, svg):
-    return [Sequences(svg, tier, seed), Handles(svg, tier, seed), Arcs(svg, tier), Precision(svg, tier)]
+    return [Sequences(svg, tier, seed), Handles(svg, tier, seed), Arcs(svg, tier), Precision(svg, tier), stale_check(svg, tier)]
 
 
 def m_subpath_fragment(d):
